@@ -588,6 +588,10 @@ func (k *KWorld) Sync() {
 				want := 0
 				if ino, was := old[e.Name()]; !was || ino != id.ino {
 					want = 1
+				} else if k.movedAway[fmt.Sprintf("%d/%s", sident(u.spelling).ino, e.Name())] && creates[p] == 1 {
+					// the same file was renamed away and came back under its name
+					// within the segment: two changes, Rename then Create
+					want = 1
 				}
 				if old == nil {
 					want = 0 // watch added inside the segment: existing entries are not new
